@@ -532,6 +532,22 @@ def skip_rep_cases() -> list[dict]:
     return cases
 
 
+def rule_name_cases() -> list[dict]:
+    """Deterministic: rule names that meet the names a generated module uses itself (members of its Rule enum are
+    upper-cased rule names; rule functions are parse_<rule>; module-level helpers): names that differ only in case,
+    _sunder_ / __dunder__ names, `trivia`, names of the prelude."""
+    cases = []
+    for n1, n2 in (("a", "A"), ("_x_", "X"), ("__x__", "x_"), ("trivia", "parse"), ("inner", "state"),
+                   ("pairs", "matched"), ("Rule", "Pair"), ("rule_frame", "RULE_FRAME")):
+        for trules, textra in (("", ""), ('WHITESPACE = _{ " " }', " ")):
+            g = (f'start = {{ {n1} ~ {n2}? ~ "b" }}\n{n1} = {{ "a" }}\n{n2} = {{ "ab" | "a" }}\n'
+                 + (trules + "\n" if trules else ""))
+            cases.append({"family": "OPT", "label": f"rule names {n1} / {n2}", "grammar": g,
+                          "rules": ["start", n1, n2], "alphabet": alphabet_for("", textra)[:3],
+                          "maxlen": 4, "starts": "zero", "passes": None})
+    return cases
+
+
 def skip_name_cases() -> list[dict]:
     """Deterministic: a grammar rule that happens to be called SKIP (the name the optimizer gives its fused trivia
     rule) under every trivia configuration: it must stay an ordinary rule — never matched implicitly, never replaced."""
